@@ -40,11 +40,22 @@ type history struct {
 func makeHistory(seed uint64, idx int) *history {
 	r := common.NewRand(seed*1000003 + uint64(idx)*104729 + 5)
 	h := &history{errEnts: r.Chance(1, 3)}
-	g := &loaderlab.Gen{R: r, Opt: loaderlab.GenOptions{MaxDepth: 2 + r.Pick(2), Requires: r.Chance(1, 2), ErrEntities: h.errEnts, Serial: true, SharedOps: true}}
-	h.u = g.Universe()
+	g := &loaderlab.Gen{R: r, Opt: loaderlab.GenOptions{MaxDepth: 2 + r.Pick(2), Requires: r.Chance(1, 2), ErrEntities: h.errEnts,
+		UnknownEntities: r.Chance(1, 2), Serial: true, SharedOps: true}}
 	np := 2 + r.Pick(2)
-	for i := 0; i < np; i++ {
-		h.plans = append(h.plans, g.Plan(h.u))
+	if r.Chance(1, 2) {
+		// focused: one selection on one entity type, plans differ in which entities they batch; unknown (null) entities
+		fo := g.FocusedUniverse()
+		h.u = fo.U
+		np = 3 + r.Pick(3)
+		for i := 0; i < np; i++ {
+			h.plans = append(h.plans, fo.Plan(r))
+		}
+	} else {
+		h.u = g.Universe()
+		for i := 0; i < np; i++ {
+			h.plans = append(h.plans, g.Plan(h.u))
+		}
 	}
 	n := 3 + r.Pick(6)
 	for i := 0; i < n; i++ {
@@ -134,7 +145,13 @@ func (h *history) line(lab *loaderlab.Lab, seed uint64, idx int) string {
 			for _, v := range rq.CC {
 				cc = append(cc, common.QS(v))
 			}
-			ups = append(ups, common.L("u", common.I(rq.FetchID), common.I(rq.Seq), common.I(rq.Status), common.I(rq.NErrors), common.L(cc...), common.L(reps...), common.B(rq.BadInput)))
+			ents := []string{"ents"}
+			if bv, e := astjson.ParseBytes(rq.Body); e == nil {
+				for _, x := range bv.GetArray("data", "_entities") {
+					ents = append(ents, plan.JSONSexp(x))
+				}
+			}
+			ups = append(ups, common.L("u", common.I(rq.FetchID), common.I(rq.Seq), common.I(rq.Status), common.I(rq.NErrors), common.L(cc...), common.L(reps...), common.B(rq.BadInput), common.L(ents...)))
 		}
 		ccs := []string{"hdrs"}
 		for _, f := range p.Fetches {
